@@ -217,6 +217,9 @@ func init() {
 		}
 		if allowShare && r.Intn(4) == 0 {
 			f = pick(r, []string{"$share", "$SHARE", "$Share"}) + "/" + pick(r, []string{"g", "h"}) + "/" + f
+		} else if allowShare && r.Intn(16) == 0 {
+			// ordinary filters whose first level merely BEGINS with $share: not shared subscriptions
+			f = pick(r, []string{"$shares", "$shared", "$SHAREX", "$share-me"}) + "/" + pick(r, []string{"g", "h"}) + "/" + f
 		}
 		return f
 	}
